@@ -15,7 +15,8 @@ EXPLANATION = (
     'and guard it on every path (no check-then-lock, no bypass); the store that makes is_closing true must lie in the '
     'same critical-section instance as the sendall of the Close frame, otherwise another thread can write after the '
     'Close or pass its own not-closing test; the decision to send a Close is re-validated inside the section; every '
-    'close() path that attempts the send enters the closing state. Schedule independent; no interleaving enumerated.')
+    'close() path that attempts the send enters the closing state. Schedule independent; no interleaving enumerated.'
+    ' Also decided: package-wide isolation (objects created once per class or per function definition - class-level attributes, parameter defaults - are only read), so that no buffer, validator, cache, lock or option table is shared between connections by accident.')
 NOT_DECIDED = 'specific interleavings'
 ASSUMPTIONS = ['`with lock:` releases on every exit']
 
